@@ -97,6 +97,19 @@ func rtSize(m any) int {
 // presize is the buffer size used by opGenMarshalToPresized (set by the caller from a fresh copy).
 var presize int
 
+// bufFill is what the caller's buffer holds when it is handed to MarshalTo: a buffer that was used before is not
+// zeroed. The reference marshal of the fresh copy always gets a zeroed buffer.
+var bufFill byte
+
+func dirty(buf []byte) []byte {
+	if bufFill != 0 {
+		for i := range buf {
+			buf[i] = bufFill
+		}
+	}
+	return buf
+}
+
 func doMarshal(op int, m any) (r result) {
 	defer func() {
 		if p := recover(); p != nil {
@@ -115,13 +128,13 @@ func doMarshal(op int, m any) (r result) {
 		r.b, r.err = fm.Marshal()
 	case opGenMarshalTo:
 		n := fm.Size()
-		buf := make([]byte, n)
+		buf := dirty(make([]byte, n))
 		r.err = fm.MarshalTo(buf)
 		r.b = buf
 	case opGenMarshalToPresized:
 		// the caller knows the size already (here: from a fresh copy) and does not call Size on this object
 		n := presize
-		buf := make([]byte, n)
+		buf := dirty(make([]byte, n))
 		r.err = fm.MarshalTo(buf)
 		r.b = buf
 	case opCsMarshal:
@@ -202,10 +215,16 @@ func (h *hist) opMarshal(t *rapid.T) {
 			op = opGenMarshal
 		}
 	}
+	fill := []byte{0x00, 0xFF, 0x80, 0x01, 0xA5}[rapid.IntRange(0, 4).Draw(t, "bufferfill")]
 	h.w.WatchBegin(&opNames[op])
+	bufFill = fill
 	got := doMarshal(op, h.m)
+	bufFill = 0
 	want := doMarshal(op, fresh)
 	h.w.WatchEnd()
+	if fill != 0 && (op == opGenMarshalTo || op == opGenMarshalToPresized) {
+		h.w.Fault("marshalto_into_used_buffer")
+	}
 	h.judged++
 	if cache0 > 0 {
 		h.warm++
